@@ -408,12 +408,12 @@ static int api_kind(int fn) {
     }
     switch (g_fn[fn].fam) {
     case FAM_INPLACE: case FAM_COPY: case FAM_NCOPY: case FAM_FILL: case FAM_CMP: case FAM_SEARCH: case FAM_CONV: case FAM_FMT: case FAM_WFMT:
-    case FAM_TOK: case FAM_TIME: case FAM_UNI: case FAM_SORT: case FAM_FILE:
-        return 0;
-    default: return -1; // stream functions are not used in histories
+    case FAM_TOK: case FAM_TIME: case FAM_UNI: case FAM_SORT: case FAM_FILE: case FAM_SFMT: case FAM_SCAN:
+        return 0; // (stream and scan functions: on the task's own cookie streams only, never on stdin / stdout)
+    default: return -1;
     }
 }
-static const int g_api_fams[] = {FAM_INPLACE, FAM_COPY, FAM_NCOPY, FAM_FILL, FAM_CMP, FAM_SEARCH, FAM_CONV, FAM_FMT, FAM_WFMT, FAM_TOK, FAM_TIME, FAM_UNI, FAM_SORT, FAM_FILE};
+static const int g_api_fams[] = {FAM_INPLACE, FAM_COPY, FAM_NCOPY, FAM_FILL, FAM_CMP, FAM_SEARCH, FAM_CONV, FAM_FMT, FAM_WFMT, FAM_TOK, FAM_TIME, FAM_UNI, FAM_SORT, FAM_FILE, FAM_SFMT, FAM_SCAN};
 
 // ------------------------------------------------------------------ generation
 static void gen_history(Rng &r, Plan &plan) {
